@@ -7,11 +7,13 @@
 //! bytes fed to the real decoders are the bytes the theorems talk about.
 use calamine::verif_hooks::utils::{push_column, FTAB, FTAB_ARGC, FTAB_LEN};
 use calamine::verif_hooks::{xls as hx, xlsb as hb};
-use calamine::{Reader, Xls, Xlsb};
+use calamine::{Ods, Reader, Xls, Xlsb, Xlsx};
 use std::collections::BTreeMap;
 use std::io::Cursor;
 use verif_harness::xlsbw::{BVal, DefinedName, Fmla, XlsbBook, XlsbSheet};
+use verif_harness::odsw::{OdsBook, OdsCell, OdsSheet, OdsVal, RowRun};
 use verif_harness::xlsw::{Cached, CellV, XlsBook, XlsCell, XlsName, XlsSheet};
+use verif_harness::xlsxw::{ev_wire, Layout, XCell, XVal, XlsxBook, XlsxSheet};
 use verif_harness::{driver::Driver, fnv64, guarded, hex, report::Report, rng::Rng, unhex, Args};
 
 // ------------------------------------------------------------------------------------------------
@@ -1377,6 +1379,378 @@ fn gen_dn(rng: &mut Rng) -> Vec<u8> {
     v
 }
 
+
+// ------------------------------------------------------------------------------------------------
+// stage 3: xlsx / ods — the formula is the stored text, reported at the cell's absolute position
+// ------------------------------------------------------------------------------------------------
+
+/// formula texts: A1 renderings of random expressions plus texts that need XML escaping / are not ASCII
+fn gen_formula_text(rng: &mut Rng) -> String {
+    const SPECIAL: [&str; 10] = [
+        "A1&\"<x>\"",
+        "IF(A1<=B2,\"a&b\",'Sheet 2'!C3)",
+        "1<2",
+        "\"é\"&\"中\"&\"😀\"",
+        " A1 + B1 ",
+        "A1>B1",
+        "SUM(A1:A3)+\"'\"",
+        "x",
+        "$A$1",
+        "T(\"]]>\")",
+    ];
+    if rng.chance(1, 4) {
+        return rng.pick(&SPECIAL).to_string();
+    }
+    let ctx = Ctx { sheets: vec!["S1".into(), "Data".into()], names: vec!["MyName".into()], xtis: vec![0, 1] };
+    loop {
+        let d = rng.range(0, 2) as u32;
+        let e = gen_expr(rng, d, &ctx, &GenOpts { wide: true });
+        let mut t = String::new();
+        e.render(&ctx, &mut t);
+        // stored text goes through XML: no control characters (CR would be normalised), not empty
+        if !t.is_empty() && !t.chars().any(|c| (c as u32) < 0x20 || c == '\u{FFFE}' || c == '\u{FFFF}') {
+            return t;
+        }
+    }
+}
+
+/// one logical xlsx sheet: `(row, col) -> (value kind 0..6, formula)`
+type XGrid = BTreeMap<(u32, u32), (u8, Option<String>)>;
+
+struct XlsxCase {
+    layout_seed: u64,
+    sheets: Vec<XGrid>,
+}
+
+const XNAMES: [&str; 3] = ["Sheet1", "Données", "S 3"];
+
+impl XlsxCase {
+    fn wire(&self) -> String {
+        let mut s = format!("xlsxf {} |", self.layout_seed);
+        let mut first = true;
+        for (i, g) in self.sheets.iter().enumerate() {
+            for ((r, c), (k, f)) in g {
+                if !first {
+                    s.push_str(" ;");
+                }
+                first = false;
+                s.push_str(&format!(" {i} {r} {c} {k} {}", f.as_ref().map(|f| hex(f.as_bytes())).unwrap_or("~".into())));
+            }
+        }
+        s.push_str(&format!(" # {}", self.sheets.len()));
+        s
+    }
+    fn parse(words: &[&str]) -> XlsxCase {
+        let bar = words.iter().position(|w| *w == "|").unwrap();
+        let hash = words.iter().position(|w| *w == "#").unwrap();
+        let n: usize = words[hash + 1].parse().unwrap();
+        let mut sheets = vec![XGrid::new(); n];
+        for chunk in words[bar + 1..hash].split(|w| *w == ";") {
+            if chunk.is_empty() {
+                continue;
+            }
+            let f = if chunk[4] == "~" { None } else { Some(String::from_utf8(unhex(chunk[4])).unwrap()) };
+            sheets[chunk[0].parse::<usize>().unwrap()].insert((chunk[1].parse().unwrap(), chunk[2].parse().unwrap()), (chunk[3].parse().unwrap(), f));
+        }
+        XlsxCase { layout_seed: words[1].parse().unwrap(), sheets }
+    }
+    fn book(&self) -> XlsxBook {
+        let mut book = XlsxBook::new();
+        for (i, g) in self.sheets.iter().enumerate() {
+            let mut sh = XlsxSheet::new(XNAMES[i]);
+            for ((r, c), (k, f)) in g {
+                let v = match k {
+                    0 => XVal::Empty,
+                    1 => XVal::Num("1.5".into()),
+                    2 => XVal::SharedStr("shared".into()),
+                    3 => XVal::InlineStr("inline".into()),
+                    4 => XVal::Bool(true),
+                    5 => XVal::FormulaStr("txt".into()),
+                    _ => XVal::Err("#DIV/0!".into()),
+                };
+                let mut cell = XCell::new(v);
+                if let Some(f) = f {
+                    cell = cell.with_formula(f);
+                }
+                sh.set(*r, *c, cell);
+            }
+            book.sheets.push(sh);
+        }
+        book
+    }
+}
+
+fn gen_xlsx_case(rng: &mut Rng) -> XlsxCase {
+    let ns = rng.range(1, 2) as usize;
+    let mut sheets = vec![];
+    for _ in 0..ns {
+        let mut g = XGrid::new();
+        // windows of consecutive rows; often anchored at A1 so that rows and cells may omit `r`
+        let (r0, c0) = match rng.below(4) {
+            0 | 1 => (0u32, 0u32),
+            2 => (rng.below(20) as u32, rng.below(5) as u32),
+            _ => (rng.below(1_048_576 - 16) as u32, rng.below(16_384 - 16) as u32),
+        };
+        let nrows = rng.range(0, 6) as u32;
+        let mut r = r0;
+        for _ in 0..nrows {
+            let ncells = rng.range(1, 6);
+            let mut c = if rng.chance(3, 4) { c0 } else { c0 + rng.below(4) as u32 };
+            for _ in 0..ncells {
+                let with_f = rng.chance(3, 5);
+                let kind = if with_f && rng.chance(1, 3) { 0 } else { rng.below(7) as u8 };
+                g.insert((r, c), (kind, if with_f { Some(gen_formula_text(rng)) } else { None }));
+                c += if rng.chance(3, 4) { 1 } else { rng.range(2, 5) as u32 };
+            }
+            r += if rng.chance(3, 4) { 1 } else { rng.range(2, 4) as u32 };
+        }
+        sheets.push(g);
+    }
+    XlsxCase { layout_seed: rng.next(), sheets }
+}
+
+fn xlsx_case_fails(xc: &XlsxCase, drv: &mut Driver) -> Vec<Fail> {
+    let mut fails = vec![];
+    let layout = Layout::random(&mut Rng::new(xc.layout_seed));
+    let built = xc.book().build(&layout);
+    let events = built.sheet_events.clone();
+    match guarded(|| Xlsx::new(Cursor::new(built.bytes))) {
+        Ok(Ok(mut wb)) => {
+            for (i, g) in xc.sheets.iter().enumerate() {
+                let exp: BTreeMap<(u32, u32), String> =
+                    g.iter().filter_map(|(p, (_, f))| f.as_ref().filter(|f| !f.is_empty()).map(|f| (*p, f.clone()))).collect();
+                let e = expected_dump(&exp);
+                let imp = guarded(|| impl_dump(&mut wb, XNAMES[i])).unwrap_or_else(|p| format!("panic:{p}"));
+                // model: the `next_formula` cursor machine on exactly the events that were written
+                let reply = drv.ask(&format!("xf {}", ev_wire(&events[i])));
+                let m = match reply.strip_prefix("ok") {
+                    Some(rest) => {
+                        let mut cells = BTreeMap::new();
+                        for w in rest.split_whitespace() {
+                            let p: Vec<&str> = w.split(',').collect();
+                            let t = String::from_utf8(unhex(p[2])).unwrap();
+                            if !t.is_empty() {
+                                cells.insert((p[0].parse().unwrap(), p[1].parse().unwrap()), t);
+                            }
+                        }
+                        expected_dump(&cells)
+                    }
+                    None => reply.clone(),
+                };
+                if imp != e {
+                    fails.push(Fail { kind: "impl_vs_spec", sig: "file_xlsx_worksheet_formula".into(), imp: imp.clone(), model: m.clone(), expect: e.clone() });
+                }
+                if imp != m {
+                    fails.push(Fail { kind: "impl_vs_model", sig: "file_xlsx_worksheet_formula".into(), imp: imp.clone(), model: m.clone(), expect: e.clone() });
+                }
+                if m != e {
+                    fails.push(Fail { kind: "model_vs_spec", sig: "file_xlsx_worksheet_formula".into(), imp, model: m, expect: e });
+                }
+            }
+        }
+        Ok(Err(e)) => fails.push(Fail { kind: "impl_vs_spec", sig: "file_xlsx_open".into(), imp: format!("err:{e:?}"), model: String::new(), expect: "opens".into() }),
+        Err(p) => fails.push(Fail { kind: "impl_vs_spec", sig: "file_xlsx_open".into(), imp: format!("panic:{p}"), model: String::new(), expect: "opens".into() }),
+    }
+    fails
+}
+
+fn run_xlsx_case(xc: &XlsxCase, drv: &mut Driver, rep: &mut Report, shrunk: &mut u32) {
+    let input = xc.wire();
+    let ncells: usize = xc.sheets.iter().map(|g| g.len()).sum();
+    rep.case(&input, ncells >= 2);
+    rep.count("xlsx_file_case");
+    rep.add("xlsx_formula_cells", xc.sheets.iter().map(|g| g.values().filter(|v| v.1.is_some()).count() as u64).sum());
+    rep.add("xlsx_formula_only_cells", xc.sheets.iter().map(|g| g.values().filter(|v| v.1.is_some() && v.0 == 0).count() as u64).sum());
+    let fails = xlsx_case_fails(xc, drv);
+    if fails.is_empty() {
+        return;
+    }
+    // shrink: drop cells while the first failure persists (same kind and signature)
+    let (k0, s0) = (fails[0].kind, fails[0].sig.clone());
+    let mut cur = XlsxCase { layout_seed: xc.layout_seed, sheets: xc.sheets.clone() };
+    if *shrunk < 40 {
+        *shrunk += 1;
+        let mut progress = true;
+        while progress {
+            progress = false;
+            for si in 0..cur.sheets.len() {
+                let keys: Vec<(u32, u32)> = cur.sheets[si].keys().cloned().collect();
+                for k in keys {
+                    let mut t = XlsxCase { layout_seed: cur.layout_seed, sheets: cur.sheets.clone() };
+                    t.sheets[si].remove(&k);
+                    if xlsx_case_fails(&t, drv).iter().any(|f| f.kind == k0 && f.sig == s0) {
+                        cur = t;
+                        progress = true;
+                    }
+                }
+            }
+        }
+    }
+    let small = cur.wire();
+    let f2 = xlsx_case_fails(&cur, drv);
+    for f in if f2.is_empty() { &fails } else { &f2 } {
+        rep.fail(f.kind, &f.sig, if f2.is_empty() { &input } else { &small }, &f.imp, &f.model, &f.expect);
+    }
+}
+
+/// ods: rows of cell runs. cell word: `_k` blank run, `v` float, `s` string, `f<hex>[*k]` formula without a cached
+/// value, `g<hex>[*k]` float with formula; row word: `<repeat>:<cell>,<cell>…`
+struct OdsCase {
+    rows: Vec<(usize, Vec<String>)>,
+}
+
+impl OdsCase {
+    fn wire(&self) -> String {
+        let mut s = String::from("odsf");
+        for (k, cells) in &self.rows {
+            s.push_str(&format!(" {k}:{}", cells.join(",")));
+        }
+        s
+    }
+    fn parse(words: &[&str]) -> OdsCase {
+        OdsCase {
+            rows: words[1..]
+                .iter()
+                .map(|w| {
+                    let (k, cells) = w.split_once(':').unwrap();
+                    (k.parse().unwrap(), cells.split(',').filter(|c| !c.is_empty()).map(|c| c.to_string()).collect())
+                })
+                .collect(),
+        }
+    }
+    fn sheet(&self) -> OdsSheet {
+        let rows = self
+            .rows
+            .iter()
+            .map(|(k, cells)| {
+                let cs: Vec<OdsCell> = cells
+                    .iter()
+                    .map(|w| {
+                        let (body, rep) = match w.split_once('*') {
+                            Some((b, k)) => (b, Some(k.parse::<usize>().unwrap())),
+                            None => (w.as_str(), None),
+                        };
+                        let mut c = match &body[..1] {
+                            "_" => OdsCell::empty_run(body[1..].parse().unwrap()),
+                            "v" => OdsCell::float(2.5),
+                            "s" => OdsCell::string("txt"),
+                            "f" => OdsCell::new(OdsVal::Empty).with_formula(&String::from_utf8(unhex(&body[1..])).unwrap()),
+                            _ => OdsCell::float(1.0).with_formula(&String::from_utf8(unhex(&body[1..])).unwrap()),
+                        };
+                        if let Some(k) = rep {
+                            c = c.times(k);
+                        }
+                        c
+                    })
+                    .collect();
+                let r = RowRun::new(cs);
+                if *k == 1 {
+                    r
+                } else {
+                    r.times(*k)
+                }
+            })
+            .collect();
+        OdsSheet::new("Sheet1", rows)
+    }
+}
+
+fn gen_ods_case(rng: &mut Rng) -> OdsCase {
+    let nrows = rng.range(0, 6);
+    let mut rows = vec![];
+    for _ in 0..nrows {
+        let repeat = match rng.below(6) {
+            0 => rng.range(2, 4) as usize,
+            _ => 1,
+        };
+        if rng.chance(1, 5) {
+            // blank rows (possibly a long run)
+            rows.push((*rng.pick(&[1usize, 2, 7, 300]), vec![format!("_{}", rng.pick(&[1usize, 3, 1000]))]));
+            continue;
+        }
+        let n = rng.range(1, 5);
+        let mut cells = vec![];
+        for _ in 0..n {
+            let f = || -> String { String::new() };
+            let _ = f;
+            let w = match rng.below(10) {
+                0 | 1 => format!("_{}", rng.pick(&[1usize, 2, 5, 40])),
+                2 => "v".to_string(),
+                3 => "s".to_string(),
+                4..=6 => format!("f{}", hex(format!("of:={}", gen_formula_text(rng)).as_bytes())),
+                _ => format!("g{}", hex(format!("of:={}", gen_formula_text(rng)).as_bytes())),
+            };
+            let w = if !w.starts_with('_') && rng.chance(1, 6) { format!("{w}*{}", rng.range(2, 4)) } else { w };
+            cells.push(w);
+        }
+        rows.push((repeat, cells));
+    }
+    OdsCase { rows }
+}
+
+fn ods_case_fails(oc: &OdsCase) -> Vec<Fail> {
+    let sheet = oc.sheet();
+    let exp: BTreeMap<(u32, u32), String> =
+        sheet.grid().iter().filter(|(_, v)| !v.1.is_empty()).map(|(p, v)| ((p.0 as u32, p.1 as u32), v.1.clone())).collect();
+    let e = expected_dump(&exp);
+    let bytes = OdsBook::new(vec![sheet]).to_bytes();
+    let mut fails = vec![];
+    match guarded(|| Ods::new(Cursor::new(bytes))) {
+        Ok(Ok(mut wb)) => {
+            let imp = guarded(|| impl_dump(&mut wb, "Sheet1")).unwrap_or_else(|p| format!("panic:{p}"));
+            if imp != e {
+                fails.push(Fail { kind: "impl_vs_spec", sig: "file_ods_worksheet_formula".into(), imp, model: String::new(), expect: e });
+            }
+        }
+        Ok(Err(e)) => fails.push(Fail { kind: "impl_vs_spec", sig: "file_ods_open".into(), imp: format!("err:{e:?}"), model: String::new(), expect: "opens".into() }),
+        Err(p) => fails.push(Fail { kind: "impl_vs_spec", sig: "file_ods_open".into(), imp: format!("panic:{p}"), model: String::new(), expect: "opens".into() }),
+    }
+    fails
+}
+
+fn run_ods_case(oc: &OdsCase, rep: &mut Report) {
+    let input = oc.wire();
+    rep.case(&input, oc.rows.len() >= 2);
+    rep.count("ods_file_case");
+    let fails = ods_case_fails(oc);
+    if fails.is_empty() {
+        return;
+    }
+    // shrink: drop rows, then cells
+    let mut cur = OdsCase { rows: oc.rows.clone() };
+    let sig = fails[0].sig.clone();
+    let mut progress = true;
+    while progress {
+        progress = false;
+        for i in 0..cur.rows.len() {
+            let mut t = OdsCase { rows: cur.rows.clone() };
+            t.rows.remove(i);
+            if ods_case_fails(&t).iter().any(|f| f.sig == sig) {
+                cur = t;
+                progress = true;
+                break;
+            }
+            for j in 0..cur.rows[i].1.len() {
+                let mut t = OdsCase { rows: cur.rows.clone() };
+                t.rows[i].1.remove(j);
+                if ods_case_fails(&t).iter().any(|f| f.sig == sig) {
+                    cur = t;
+                    progress = true;
+                    break;
+                }
+            }
+            if progress {
+                break;
+            }
+        }
+    }
+    let f2 = ods_case_fails(&cur);
+    let small = cur.wire();
+    for f in if f2.is_empty() { &fails } else { &f2 } {
+        rep.fail(f.kind, &f.sig, if f2.is_empty() { &input } else { &small }, &f.imp, &f.model, &f.expect);
+    }
+}
+
 fn run_input(input: &str, drv: &mut Driver, rep: &mut Report, shrunk: &mut u32) {
     let words: Vec<&str> = input.split_whitespace().collect();
     match words[0] {
@@ -1389,6 +1763,8 @@ fn run_input(input: &str, drv: &mut Driver, rep: &mut Report, shrunk: &mut u32) 
             report_expr_case(&e, &ctx, drv, rep, shrunk);
         }
         "dn" => run_dn(&unhex(words[1]), drv, rep),
+        "xlsxf" => run_xlsx_case(&XlsxCase::parse(&words), drv, rep, shrunk),
+        "odsf" => run_ods_case(&OdsCase::parse(&words), rep),
         "file" => run_file_case(&FileCase::parse(&words), drv, rep),
         "toks" => {
             // raw token list through the Lean encoders: impl vs model on both encodings
@@ -1516,6 +1892,19 @@ fn main() {
         for i in 0..nf.max(1) {
             let fc = gen_file_case(&mut rng, i % 3 == 2);
             run_file_case(&fc, &mut drv, &mut rep);
+        }
+    }
+    if args.replay.is_none() {
+        // stage 3: xlsx / ods stored-text formulas at their cells
+        let mut rng = Rng::new(args.seed ^ 0x57_0e_ed);
+        let nx = args.count(1500, 150_000) / if args.n.is_some() { 4 } else { 1 };
+        for _ in 0..nx.max(1) {
+            let xc = gen_xlsx_case(&mut rng);
+            run_xlsx_case(&xc, &mut drv, &mut rep, &mut shrunk);
+        }
+        for _ in 0..nx.max(1) {
+            let oc = gen_ods_case(&mut rng);
+            run_ods_case(&oc, &mut rep);
         }
     }
     rep.add("driver_requests", drv.requests);
